@@ -101,6 +101,14 @@ func determMod(c *Ctx) *dmAnalysis {
 			a.sitePos[p] = append(a.sitePos[p], fs...)
 		}
 	}
+	// callee lists in a fixed order (they are built from map iterations): every
+	// consumer walks them, and the order of what it reports must not vary
+	for s, fs := range a.site {
+		a.site[s] = dmSortFuncs(fs)
+	}
+	for p, fs := range a.sitePos {
+		a.sitePos[p] = dmSortFuncs(fs)
+	}
 	for fn := range ssautil.AllFunctions(a.prog) {
 		if dmInModule(fn) && len(fn.Blocks) > 0 {
 			a.funcs = append(a.funcs, fn)
@@ -164,6 +172,31 @@ func determMod(c *Ctx) *dmAnalysis {
 	a.memo = nil
 	a.computeNilResults()
 	return a
+}
+
+func dmSortFuncs(fs []*ssa.Function) []*ssa.Function {
+	sort.SliceStable(fs, func(i, j int) bool { return fs[i].String() < fs[j].String() })
+	return fs
+}
+
+// sortedCallers: the callers of fn in a fixed order.
+func (a *dmAnalysis) sortedCallers(fn *ssa.Function) []*ssa.Function {
+	var out []*ssa.Function
+	for c := range a.callers[fn] {
+		out = append(out, c)
+	}
+	return dmSortFuncs(out)
+}
+
+// dmPosLess orders two positions by file name and offset. token.Pos values of
+// different files must not be compared directly: files are parsed
+// concurrently, so their bases in the FileSet differ from run to run.
+func dmPosLess(c *Ctx, x, y token.Pos) bool {
+	px, py := c.Fset.Position(x), c.Fset.Position(y)
+	if px.Filename != py.Filename {
+		return px.Filename < py.Filename
+	}
+	return px.Offset < py.Offset
 }
 
 func dmInModule(fn *ssa.Function) bool {
